@@ -216,6 +216,9 @@ WASI_CASES = r"""
 
 
 WASI_CASES += open(os.path.join(env.VERIF, 'harness', 'wasi_readdir_case.inc')).read()
+WASI_CASES += open(os.path.join(env.VERIF, 'harness', 'wasi_c15_cases.inc')).read()
+WASI_PRE = open(os.path.join(env.VERIF, 'harness', 'wasi_c15_pre.inc')).read()
+WASI_POST = open(os.path.join(env.VERIF, 'harness', 'wasi_c15_post.inc')).read()
 
 
 def gen_driver(plan, module_name, header, multi=False, shared_ok=True, wasi=False):
@@ -318,8 +321,11 @@ def gen_driver(plan, module_name, header, multi=False, shared_ok=True, wasi=Fals
     for k, e in enumerate(plan.exports):
         o.append('  {th%d, "%s"},' % (k, e['results'][0] if e['results'] else 'v'))
     o.append('  {0, 0}};')
+    if wasi:
+        o.append(WASI_POST)
     tail = DRIVER_TAIL.replace('@M@', M).replace('@WASICASES@', WASI_CASES if wasi else '')
     if wasi:
+        o.insert(1, WASI_PRE)
         o.insert(1, '#include "wasi.h"\nstatic int wasiArgc; static char** wasiArgv; static char** wasiEnvp;\n'
                     'static wasmMemory* getMem(int inst, int ref);\n'
                     'wasmMemory* wasiMemory(void* instance) { int k = 0; if ((char*)instance >= (char*)insts && (char*)instance < (char*)(insts + NINST)) k = (int)((Inst*)instance - insts); return getMem(k, 0); }\n')
